@@ -190,6 +190,11 @@ class SchemaGen:
         n = self.nodes[k]
         if n is None:
             return "pending"
+        if n.t == "fixed" and n.kind() == "duration":
+            # the frozen schema keeps no name for a duration: every such branch is reported (and can
+            # only be selected) as "Duration", so two of them in one union cannot be told apart by
+            # name (known finding C01/KF1; the general generator keeps at most one per union)
+            return "duration"
         if n.t in ("record", "enum", "fixed"):
             return "named:" + n.name
         return n.t if n.kind() == n.t else n.kind()
